@@ -115,6 +115,7 @@ def _baseline(reqs):
 
 def _cli_seed(args):
     pid, comp, seed, workdir = args
+    workdir = os.path.join(workdir, '%d_%s_%s' % (pid, comp, seed))
     os.makedirs(workdir, exist_ok=True)
     src = os.path.join(workdir, 'p%d.asm' % pid)
     with open(src, 'w') as f:
